@@ -515,6 +515,13 @@ def rule_not_aware(ctx):
             txt = " ".join(norm(e) for e in pr.exprs) if pr else ""
             if not (("!=" in txt or "^" in txt or "is not" in txt) and ("_is_negated" in txt or "NOT" in txt)):
                 problems.append("NOT together with != is not cancelled (NOT != prints as !=)")
+            # both comparison tokens have TWO spellings in the grammar (EQ: '=' | '==', NEQ: '!=' | '<>'): which operator was
+            # written is known from the token's type, never from its text
+            spellings = [x for x in body_walk(m.node) if isinstance(x, ast.Compare) and any(
+                isinstance(c_, ast.Constant) and c_.value in ("=", "==", "!=", "<>") for c_ in [x.left] + list(x.comparators))]
+            if spellings or "parser_class.EQ" not in t and "parser_class.NEQ" not in t:
+                problems.append("the operator is identified by its text (%s): '==' / '<>' are the same tokens as '=' / '!=' and are "
+                                "taken for the other operator" % (short(spellings[0], 40) if spellings else "no token-type test"))
         c0 = key(rel, m.qualname, "negated-from-parse-tree")
         run.check(not problems, R, c0, "the grammar allows NOT in %s but the visitor loses it: %s — e.g. [a:b NOT IN (1,2)] becomes "
                   "[a:b IN (1, 2)] (and is reported equivalent to it)" % (rule, "; ".join(problems)), file=rel, line=m.node.lineno,
